@@ -39,6 +39,8 @@ package helpers
 //@ props C14 C03
 //@ reveal isMeta
 //@ ensures.prefix[C14,C03] result == isMeta(data)
+// the reserved key spaces are the documented ones: a wider prefix would withhold user documents
+//@ ensures.reserved_key_spaces[C14,C03] Prefix == "_connector:cbgo:" && TxnPrefix == "_txn:"
 //@ modifies nothing
 
 // Size strings. Strings and floats are uninterpreted here: the contract fixes which substring is parsed,
